@@ -14,8 +14,36 @@
 #include <type_traits>
 #include <gmp.h>
 #include <gmpxx.h>
+#include <csetjmp>
+#include <csignal>
+#include <cstdlib>
+#include <unistd.h>
+#include <sys/time.h>
 #include "gmp++/gmp++.h"
 #include "givinteger.h"
+#ifdef C02_ASSERTS
+// Second configuration (givaro's own --enable-debug flags: -UNDEBUG -DDEBUG): the two anchored translation units are compiled
+// HERE with their asserts on (the archive members of the NDEBUG library are then not pulled by the linker); a failing assert
+// does not abort the harness: glibc's __assert_fail is replaced and jumps back to the read loop, which prints ASSERT-FAILED.
+#ifdef NDEBUG
+#error "C02_ASSERTS needs -UNDEBUG"
+#endif
+#include "gmp++_int_div.C"
+#include "gmp++_int_mod.C"
+static sigjmp_buf ASSERT_JMP;
+static char ASSERT_MSG[512];
+extern "C" void __assert_fail(const char* expr, const char* file, unsigned int line, const char*) noexcept
+{
+    const char* b = file; for (const char* c = file; *c; ++c) if (*c == '/') b = c + 1;
+    snprintf(ASSERT_MSG, sizeof ASSERT_MSG, "ASSERT-FAILED %s:%u `%s'", b, line, expr);
+    siglongjmp(ASSERT_JMP, 1);
+}
+#endif
+// per-case CPU-time watchdog (ITIMER_PROF counts CPU time of this process: independent of machine load): a call that does not
+// return within the budget (seconds, environment C02_CPU_BUDGET, default 20) ends the harness with a marker line; the check
+// re-runs that one case alone with a larger budget before it reports "does not return".
+static void cpu_budget_exceeded(int) { static const char m[] = "CPU-BUDGET-EXCEEDED\n"; ssize_t w = write(1, m, sizeof m - 1); (void)w; _exit(97); }
+static void arm_watchdog(long sec) { struct itimerval t; t.it_interval.tv_sec = 0; t.it_interval.tv_usec = 0; t.it_value.tv_sec = sec; t.it_value.tv_usec = 0; setitimer(ITIMER_PROF, &t, NULL); }
 
 using namespace Givaro;
 
@@ -65,6 +93,11 @@ static std::string run(const std::string& f, const Integer& n, const Integer& d)
         if (f == "cfg.u16_max") return WU(UINT16_MAX);
         if (f == "cfg.dbl_mant_dig") return W(DBL_MANT_DIG);
         if (f == "cfg.dbl_round_nearest") return W(std::numeric_limits<double>::round_style == std::round_to_nearest ? 1 : 0);
+#ifdef NDEBUG
+        if (f == "cfg.ndebug") return "1";
+#else
+        if (f == "cfg.ndebug") return "0";
+#endif
         if (f == "cfg.long_is_int64") return W((std::is_same<long, int64_t>::value && std::is_same<unsigned long, uint64_t>::value) ? 1 : 0);
         return "UNKNOWN-FORM";
     }
@@ -176,11 +209,11 @@ static std::string run(const std::string& f, const Integer& n, const Integer& d)
     if (f == "op%=.T") { r = n; mpz_class dd(d.get_mpz_const()); r %= dd; return S(r); }
     if (f == "op%=.Ts") { r = n; short ds = (short)dl; r %= ds; return S(r); }
     if (f == "op%.I") { return S(n % d); }
-    if (f == "op%.ul") { int64_t x = n % dul; return W(x); }
-    if (f == "op%.l") { int64_t x = n % dl; return W(x); }
-    if (f == "op%.u") { int32_t x = n % du; return W(x); }
-    if (f == "op%.i") { int32_t x = n % di; return W(x); }
-    if (f == "op%.us") { int16_t x = n % (uint16_t)dul; return W(x); }
+    if (f == "op%.ul") { auto x = n % dul; return W(x); }      // `auto`: whatever type the overload returns, not narrowed here
+    if (f == "op%.l") { auto x = n % dl; return W(x); }
+    if (f == "op%.u") { auto x = n % du; return W(x); }
+    if (f == "op%.i") { auto x = n % di; return W(x); }
+    if (f == "op%.us") { auto x = n % (uint16_t)dul; return W(x); }
     if (f == "op%.Ts") { short ds = (short)dl; short x = n % ds; return W(x); }
     // double: the operand is exactly representable (the check generates only such values); the result, an integer-valued
     // double, is printed exactly through mpz_set_d
@@ -218,7 +251,7 @@ static std::string run(const std::string& f, const Integer& n, const Integer& d)
     if (f == "w%I.us") { return S((unsigned short)u64(n) % d); }
     // `long` / `unsigned long` operands (the same types as int64_t / uint64_t on LP64: checked by cfg.long_is_int64)
     if (f == "op/.L") { long x = (long)dl; return S(n / x); }
-    if (f == "op%.UL") { unsigned long x = (unsigned long)dul; int64_t y = n % x; return W(y); }
+    if (f == "op%.UL") { unsigned long x = (unsigned long)dul; auto y = n % x; return W(y); }
     if (f == "mod.L") { long x = (long)dl; Integer::mod(r, n, x); return S(r); }
     if (f == "divexact.qUL") { unsigned long x = (unsigned long)dul; Integer::divexact(q, n, x); return S(q); }
     // multi-step use of one destination object: the result of an earlier call is what a later call finds in it
@@ -247,6 +280,25 @@ static std::string run(const std::string& f, const Integer& n, const Integer& d)
     if (f == "dom.remin") { r = n; Z.remin(r, d); return S(r); }
     if (f == "dom.quoRem") { Z.quoRem(q, r, n, d); return S(q) + " " + S(r); }
     if (f == "dom.isDivisor") { return Z.isDivisor(n, d) ? "1" : "0"; }
+    // every two-output form with each output object being each input object ("q or r may be the same object as a or b")
+    if (f == "divmod.I@qa") { q = n; Integer::divmod(q, r, q, d); return S(q) + " " + S(r); }
+    if (f == "divmod.I@qb") { q = d; Integer::divmod(q, r, n, q); return S(q) + " " + S(r); }
+    if (f == "divmod.I@ra") { r = n; Integer::divmod(q, r, r, d); return S(q) + " " + S(r); }
+    if (f == "divmod.I@rb") { r = d; Integer::divmod(q, r, n, r); return S(q) + " " + S(r); }
+    if (f == "divmod.I@qa.rb") { q = n; r = d; Integer::divmod(q, r, q, r); return S(q) + " " + S(r); }
+    if (f == "divmod.I@qb.ra") { q = d; r = n; Integer::divmod(q, r, r, q); return S(q) + " " + S(r); }
+    if (f == "divmod.l@qa") { q = n; int64_t rr = WGARB[GI]; Integer::divmod(q, rr, q, dl); return S(q) + " " + W(rr); }
+    if (f == "divmod.ul@qa") { q = n; uint64_t rr = (uint64_t)WGARB[GI]; Integer::divmod(q, rr, q, dul); return S(q) + " " + WU(rr); }
+    if (f == "dom.divmod@qa") { q = n; Z.divmod(q, r, q, d); return S(q) + " " + S(r); }
+    if (f == "dom.divmod@qb") { q = d; Z.divmod(q, r, n, q); return S(q) + " " + S(r); }
+    if (f == "dom.divmod@ra") { r = n; Z.divmod(q, r, r, d); return S(q) + " " + S(r); }
+    if (f == "dom.divmod@rb") { r = d; Z.divmod(q, r, n, r); return S(q) + " " + S(r); }
+    if (f == "dom.quoRem@qa") { q = n; Z.quoRem(q, r, q, d); return S(q) + " " + S(r); }
+    if (f == "dom.quoRem@qb") { q = d; Z.quoRem(q, r, n, q); return S(q) + " " + S(r); }
+    if (f == "dom.quoRem@ra") { r = n; Z.quoRem(q, r, r, d); return S(q) + " " + S(r); }
+    if (f == "dom.quoRem@rb") { r = d; Z.quoRem(q, r, n, r); return S(q) + " " + S(r); }
+    if (f == "dom.quoRem@qa.rb") { q = n; r = d; Z.quoRem(q, r, q, r); return S(q) + " " + S(r); }
+    if (f == "dom.quoRem@qb.ra") { q = d; r = n; Z.quoRem(q, r, r, q); return S(q) + " " + S(r); }
     // the non-virtual base class UnparametricZRing<Integer> (unparametric-operations.h): x = y / z, x = y % z (truncating)
     { const UnparametricZRing<Integer>& B = Z;
       if (f == "zbase.div") { B.div(q, n, d); return S(q); }
@@ -258,6 +310,9 @@ static std::string run(const std::string& f, const Integer& n, const Integer& d)
 
 int main()
 {
+    struct sigaction sa; sa.sa_handler = cpu_budget_exceeded; sigemptyset(&sa.sa_mask); sa.sa_flags = 0; sigaction(SIGPROF, &sa, NULL);
+    const char* be = getenv("C02_CPU_BUDGET");
+    const long budget = (be && atol(be) > 0) ? atol(be) : 20;
     std::string line;
     while (std::getline(std::cin, line)) {
         std::istringstream is(line);
@@ -268,6 +323,10 @@ int main()
         if (mpz_set_str(n.get_mpz(), a.c_str(), 10) != 0 || mpz_set_str(d.get_mpz(), b.c_str(), 10) != 0) {
             std::cout << "BAD-LINE\n"; continue;
         }
+        arm_watchdog(budget);
+#ifdef C02_ASSERTS
+        if (sigsetjmp(ASSERT_JMP, 1)) { arm_watchdog(0); std::cout << ASSERT_MSG << "\n"; std::cout.flush(); continue; }
+#endif
         // every garbage value of the destinations; the answer must not depend on it
         GI = 0;
         std::string out = run(f, n, d);
@@ -280,6 +339,7 @@ int main()
             GI = 0;
             if (!diff.empty()) out = "DEST-DEPENDENT destination initially " + std::string(GARB[0]) + ": " + out + diff;
         }
+        arm_watchdog(0);
         std::cout << out << "\n";
         std::cout.flush();   // a crash (e.g. SIGFPE inside GMP) must not lose the lines already produced: the check locates the crashing case by counting them
     }
